@@ -254,14 +254,14 @@ Qed.
 
 (* the tokenizer run the parser is given (Tok.run): the tokens, then clean end-of-input results *)
 Corollary run_inversion l tail : Forall (fun p => hws (fst p) /\ lex_ok (snd p)) l -> sep_ok l -> hws tail ->
-  exists m, length l + m = length (render l tail) + 3 /\
+  exists m, length l + m = length (render l tail) + margin /\
             run (render l tail) false = map (fun p => NT (tok_of (snd p)) []) l ++ repeat (NF []) m.
 Proof.
   intros H Hs Ht. unfold run.
   assert (Hlen : length l <= length (render l tail)).
   { clear Hs. induction H as [|[ws x] r _ _ IH]; cbn [length render]; [lia|]. rewrite !app_length. destruct x; cbn [text_of length]; lia. }
-  remember (length (render l tail) + 3 - length l) as m eqn:Em. exists m.
-  assert (En : length (render l tail) + 3 = length l + m) by lia. split; [lia|]. rewrite En.
+  remember (length (render l tail) + margin - length l) as m eqn:Em. exists m.
+  assert (En : length (render l tail) + margin = length l + m) by lia. split; [lia|]. rewrite En.
   apply (lex_inversion l tail _ None None H Hs Ht).
 Qed.
 
